@@ -23,4 +23,8 @@ def run(ctx):
     ctx.rule("R-DELIVER-ARGS", "single-frame delivery hands listeners the frame's own fields (destination decides who is addressed)", floor=4)
     for fd in (False, True):
         LY.deliver_args(ctx, T.Layer(ctx, fd=fd))
+    from rules import ca as _CA2
+    ctx.rule("R-CA-REGISTRY", "add_ca / remove_ca of both data link layers maintain the CA list the destination filter consults", floor=4)
+    _CA2.layer_ca_list(ctx, "J1939_21")
+    _CA2.layer_ca_list(ctx, "J1939_22")
     return "listener gate, destination filter dominance and the per-listener delivery formula decided for all 256 addresses"
